@@ -80,6 +80,15 @@ def run(ctx, col, tier):
              exhaustive=True)
     col.rule("R-ONCE", "the line generator handed to the file/str sink is consumed exactly once",
              floor=1)
+    col.rule("R-PURE", "writing leaves the tree as it was: no store reaches the tree's columns or "
+             "its comment list from the writer (ownership interpretation of SWCLike.to_swc and "
+             "everything it calls): the header is added to the text, not to the tree", floor=1)
+    col.rule("R-CAPTURE", "only white space of a data row is matched outside the capture groups of "
+             "the reader's regex, and converter i receives group i + 1: no part of a number is "
+             "accepted and then dropped", floor=3, exhaustive=True)
+    col.rule("R-ROOTCMP", "every comparison of a parent id with an integer constant on the "
+             "read/write path separates exactly the root marker -1 (ids may start at 0): "
+             "tabulated over parent ids {-1, 0, 1, 2, 7}", floor=8, exhaustive=True)
     col.assumptions += [
         "finite coordinates/radii, ids and types >= 0, id_offset >= 0 (premise of the property)",
         "x,y,z,r are float arrays and id,type,pid integer arrays in a Tree (checked: Tree.__init__ table)",
@@ -96,6 +105,101 @@ def run(ctx, col, tier):
     r_sent(ctx, col, names_cls)
     r_src(ctx, col)
     r_once(ctx, col)
+    r_pure(ctx, col)
+    r_capture(ctx, col)
+    from ..rules import rootcmp
+    rootcmp.check(ctx, col, "R-ROOTCMP", ("swcgeom.core.swc_utils.io", "swcgeom.core.swc_utils.normalizer",
+                                           "swcgeom.core.swc_utils.base", "swcgeom.core.tree", "swcgeom.core.swc"))
+
+
+def reader_patterns(ctx):
+    repo = ctx.repo
+    p = repo.get_def(f"{IO}.parse_swc")
+    re_assign = single_assign(p, "re_swc")
+    out = {}
+    for tag, extras in (("no-extras", []), ("one-extra", ["extra"])):
+        f = Folder(repo, p.module, p, {"extras": extras})
+        for nm in ("re_swc_cols", "re_swc_cols_str"):
+            f.env[nm] = f.eval(value_of(p, nm))
+        call = re_assign.value
+        pat = f.eval(call.args[0]) if isinstance(call, ast.Call) and call.args else None
+        if isinstance(pat, str):
+            out[tag] = pat
+    return p, re_assign, out
+
+
+def r_capture(ctx, col, rule="R-CAPTURE"):
+    """Everything but white space in a data row lies inside a capture group handed to a converter
+    (or in the last, 'ignored fields' group): no part of a number is matched and then dropped."""
+    import re._parser as sp  # the regex AST of the stdlib
+    c = sp
+    try:
+        p, re_assign, pats = reader_patterns(ctx)
+    except Unfoldable as e:
+        col.unresolved(rule, f"{IO}.parse_swc", "", "reader regex", str(e), stmt="capture")
+        return
+
+    def only_space(items) -> bool:
+        for op, av in items:
+            name = str(op)
+            if name == "AT":
+                continue
+            if name in ("MAX_REPEAT", "MIN_REPEAT", "POSSESSIVE_REPEAT"):
+                if not only_space(av[2]):
+                    return False
+            elif name == "IN":
+                for o2, a2 in av:
+                    if str(o2) == "CATEGORY" and str(a2) == "CATEGORY_SPACE":
+                        continue
+                    if str(o2) == "LITERAL" and chr(a2) in " \t":
+                        continue
+                    return False
+            elif name == "LITERAL":
+                if chr(av) not in " \t\n\r":
+                    return False
+            elif name == "SUBPATTERN":
+                if av[0] is None and not only_space(av[3]):
+                    return False
+            elif name == "BRANCH":
+                if not all(only_space(x) for x in av[1]):
+                    return False
+            else:
+                return False
+        return True
+    for tag, pat in pats.items():
+        tree = sp.parse(pat)
+        outside = []
+        for op, av in tree:
+            if str(op) == "SUBPATTERN" and av[0] is not None:
+                continue  # a capturing group: handed to a converter / the ignored-fields group
+            if not only_space([(op, av)]):
+                outside.append(str(op))
+        col.check(not outside, rule, p.qualname, p.loc(re_assign), f"reader regex ({tag}): only white space is matched outside the capture groups",
+                  f"{len(tree)} top-level items", f"the row regex matches non-blank text outside its capture groups "
+                  f"({outside}): that part of a field (e.g. an exponent) is accepted and then dropped before conversion",
+                  stmt=f"capture:{tag}")
+    # each converter receives its own group, in order: group(i + 1) for transforms[i]
+    src = norm_src(p.node)
+    col.check("for i, trans in enumerate(transforms): vals[i].append(trans(match.group(i + 1)))" in src, rule, p.qualname, p.loc(),
+              "converter i receives capture group i + 1 and fills column i", "", "the converter loop does not pair transforms[i] with group i + 1 and vals[i]",
+              stmt="capture:loop")
+
+
+def r_pure(ctx, col):
+    from .. import own
+    repo = ctx.repo
+    cls = repo.get_class("swcgeom.core.tree.Tree")
+    for q, args in (("swcgeom.core.swc.SWCLike.to_swc", 1), ("swcgeom.core.swc.SWCLike.to_eswc", 1)):
+        d = repo.get_def(q)
+        I = own.Interp(ctx)
+        selfv = I.param_tree(cls, "P:self")
+        I.call_def(d, [selfv] + [own.Opaque("fname", "str")] * args, {})
+        eff = [e for e in I.effects if "P:self" in e.owners]
+        col.check(not eff, "R-PURE", q, d.loc(), f"{d.name}: the tree (columns, comments) is not modified by writing it",
+                  f"{I.stores_seen} stores met, {I.calls_evaluated} calls expanded",
+                  (f"`{norm_src(eff[0].node)[:70]}` at {eff[0].where()} stores into the tree being written "
+                   f"(every further write repeats the header / sees the edit)" if eff else ""), stmt="pure",
+                  facts={"notes": I.notes[:5]})
 
 
 # ---------------------------------------------------------------------- R-TABLE
